@@ -21,6 +21,7 @@ ASSUMPTIONS = [
     'the model is my reading of the docstrings and the PICO-8 memory map',
 ]
 EXHAUSTIVE = {'quick': False, 'thorough': False}
+PYOPT_KINDS = ('history',)
 KNOWN_KEYS = {'sprite-edge-128', 'maprect-row-64'}
 OPS = ('set_sprite', 'get_sprite', 'set_cell', 'get_cell', 'get_rect_tiles', 'set_rect_tiles', 'get_rect_pixels',
        'get_flags', 'set_flags', 'clear_flags', 'reset_flags', 'get_note', 'set_note', 'get_sfx_properties',
